@@ -1,7 +1,7 @@
 ENTRY = {
     "C15": {
         "pkg": "packets", "hdir": "packets", "harness": ["zz_verif_c15_test.go"], "test": "TestVerifC15",
-        "quick": T(16, 60), "thorough": T(16, 600),
+        "quick": T(16, 150), "thorough": T(16, 600),
         "rule": "(A) one execution = one datagram: fixed header (header-length field consistent/+8/-8/+4/15, magic right/wrong, version, "
                 "payload-length field 0/8/16/6/3/4096/65535) ++ one sequence of 0..3 (quick) / 0..4 (thorough) TLVs from a 33-entry menu of valid and "
                 "malformed encodings ++ payload exact/one byte short/eight bytes extra, or one truncation of an encoder-made datagram; decoded by the real "
